@@ -37,7 +37,7 @@ package state
 
 //@ ghost gLastCopy Ref
 //@ func (*State).ExecBlock
-//@   props C16 C06
+//@   props C16 C06 C02
 //@   requires s != nil && block != nil
 //@   invariant-assumed s.Validators != nil && block.LastCommit != nil && block.Header != nil
 //@   nosafety
@@ -70,3 +70,39 @@ package state
 //@   atcall CommitStateUpdateMempool assert [application-commit-only-after-successful-execution] calls(ExecBlock) == 1 && gExecErr == nil && calls(CommitStateUpdateMempool) == 0 && arg_block == block
 //@   ensures [success-means-executed-then-committed] result == nil ==> calls(ExecBlock) == 1 && calls(CommitStateUpdateMempool) == 1
 //@   ensures [failed-execution-commits-nothing] gExecErr != nil ==> calls(CommitStateUpdateMempool) == 0 && result != nil
+
+// ---------------------------------------------------------------------------------------------
+// the two durable state records (C06): the state after the last completed commit under stateKey, the state right after
+// block execution (before the application's commit is acknowledged) under stateIntermediateKey. Recovery after a crash
+// between the application's commit and the state save takes over the intermediate record as it is.
+
+//@ ghost gInter Ref
+//@ ghost gCopyOf Array[Ref,Ref]
+
+//@ func (*State).Save
+//@   props C06
+//@   requires s != nil
+//@   nosafety
+//@   trusted-assigns allbut(types.Block, types.Header, types.PartSet, gemmill.Angine, state.State, pbft.ConsensusState, pbft.RoundState)
+//@   atcall SetSync assert [state-record-under-the-state-key] arg0 == stateKey && calls(SetSync) == 0
+//@   ensures  [one-durable-write] calls(SetSync) == 1
+
+//@ func (*State).SaveIntermediate
+//@   props C06
+//@   requires s != nil
+//@   nosafety
+//@   trusted-assigns allbut(types.Block, types.Header, types.Data, types.Commit, state.State)
+//@   atcall SetSync assert [intermediate-record-under-its-own-key] arg0 == stateIntermediateKey && calls(SetSync) == 0
+//@   ensures  [one-durable-write] calls(SetSync) == 1
+
+//@ func (*State).LoadIntermediate
+//@   props C06
+//@   requires s != nil
+//@   nosafety
+//@   trusted-assigns alloftype(State)
+//@   atcall loadState assert [intermediate-record-read-from-its-own-key] arg_key == stateIntermediateKey && calls(loadState) == 0
+//@   atcall loadState set gInter = result
+//@   atcall Copy set gCopyOf = store(gCopyOf, result, arg_valSet)
+//@   atcall setBlockAndValidators assert [recovered-state-takes-over-the-intermediate-record] arg_height == gInter.LastBlockHeight && arg_blockID == gInter.LastBlockID
+//@   atcall setBlockAndValidators assert [recovered-validator-sets-keep-their-roles] gCopyOf[arg_nextValSet] == gInter.Validators && gCopyOf[arg_prevValSet] == gInter.LastValidators
+//@   ensures  [recovered-once] calls(setBlockAndValidators) == 1
